@@ -213,7 +213,7 @@ def run(chk):
         "lock from one source (exact tables of minimum / minimum_mall; symbolic concatenate_rev; per-fragment templates "
         "with symbolic locks); (R17.4) announced sizes count everything produced; mode dispatch of the plan entry points.")
     chk.trusted = ["spec/outputs.py, spec/satisfaction.py", "factgen THIR; msverif.interp"]
-    chk.assumptions = ["minimality of reported locks and equality of produced bytes are not decided",
+    chk.assumptions = ["equality of produced bytes is not decided",
                        "Assets-based key matching (bip32 paths) is only covered for panics (C11)"]
     try:
         P = satmodel.paths(F)
@@ -231,3 +231,9 @@ def run(chk):
     n = modes.check_modes(chk, F, "R17.5", ["descriptor/mod.rs", "descriptor/bare.rs", "descriptor/segwitv0.rs",
                                             "descriptor/sh.rs", "descriptor/tr/mod.rs", "plan.rs"])
     chk.floor("R17.5", "mode-specific call sites", n, 30)
+    from . import e2e
+    chk.guard("R17.8", "locks-exact", e2e.check, chk, F, "R17.8", "locks",
+              "whole scripts (~60) x every key subset x preimage set x locks met or not x both modes, the template builder "
+              "the planner uses evaluated with a modelled AssetProvider: the absolute / relative lock a template reports is "
+              "necessary and sufficient for its witness in the reference execution - the spend validates with it, fails with "
+              "one less and with the other unit, and a template that reports no lock needs none")
